@@ -43,6 +43,23 @@ theorem inside_iff (r : Region) (e n : Rat) :
     insidePt r e n = true ↔ (r.w ≤ e ∧ e ≤ r.e ∧ r.s ≤ n ∧ n ≤ r.n) := by
   simp [insidePt, and_assoc]
 
+/-- Bridge: `inside` as regenerated from /repo's source text (its `greater_equal / less_equal / logical_and` ufunc calls read at one
+    element; the `out=` buffers are allocation details) is the model's closed-box predicate. -/
+theorem gen_inside_eq_model (r : Region) (e n : Rat) : Gen.insidePt r.w r.e r.s r.n e n = insidePt r e n := by
+  unfold Gen.insidePt insidePt
+  by_cases h1 : r.w ≤ e <;> by_cases h2 : e ≤ r.e <;> by_cases h3 : r.s ≤ n <;> by_cases h4 : n ≤ r.n <;> simp [h1, h2, h3, h4, ge_iff_le]
+
+/-- Bridge: `get_region` as regenerated from /repo's source text (`np.min`/`np.max` of the first two coordinate arrays, in the
+    order W, E, S, N) is the model's bounding box. -/
+theorem gen_get_region_eq_model (east north : List Rat) (r : Region) :
+    getRegion east north = some r ↔ Gen.getRegion east north = (some r.w, some r.e, some r.s, some r.n) := by
+  unfold getRegion Gen.getRegion
+  cases h1 : listMin east <;> cases h2 : listMax east <;> cases h3 : listMin north <;> cases h4 : listMax north <;>
+    simp [bind, Option.bind, pure]
+  constructor
+  · rintro rfl; simp
+  · rintro ⟨rfl, rfl, rfl, rfl⟩; rfl
+
 /-- With NaN-able coordinates (`none` = NaN): a point is inside iff BOTH coordinates are numbers satisfying the closed-box
     predicate; a point with a NaN coordinate is never inside (all four comparisons are false). -/
 theorem inside_opt_iff (r : Region) (e n : Option Rat) :
